@@ -1031,19 +1031,23 @@ def rule_r_unbinding_rebuilds_trie(repo: Repo, rep: Report) -> None:
     rep.rule(RID,
              "NamespaceManager: a call that reaches Store.bind for a prefix P, made under a test that P's current namespace (a value of store.namespace(P)) differs from "
              "the new one, leaves the old namespace without a prefix; on every path after it the trie compute_qname takes the longest matching namespace from is rebuilt "
-             "(all trie attributes reset, directly or by a self-method). A trie that still holds the old namespace makes it win over a shorter bound one: bind('a', "
+             "(all trie attributes - the instance state the manager hands to the trie functions, not a method it hands over as predicate - reset, directly or by a "
+             "self-method; the call is one of a manager method that reaches Store.bind, or Store.bind itself). A trie that still holds the old namespace makes it win over a shorter bound one: bind('a', "
              "'http://e/'); bind('b', 'http://e/x/'); bind('b', 'http://o/', replace=True); curie('http://e/x/y', generate=False) -> KeyError instead of 'a:x/y'", floor=1)
     ns = repo.mod("rdflib.namespace")
     typed = repo.typed
     methods = ns.methods("NamespaceManager")
     trie_fns = {"insert_trie", "insert_strie", "get_longest_namespace"}
+    # the trie attributes: instance STATE of the manager (an attribute some method assigns) handed to a trie function - not a bound method
+    # of the manager that is handed over as the "is this namespace bound" predicate (a lambda before, or any other callable)
+    state = {_self_attr(t) for m in methods.values() for t, _ in _assignments_nested(m) if _self_attr(t)} - set(methods)
     tries = set()
     for m in methods.values():
         for c in own_nodes(m):
             if isinstance(c, ast.Call) and isinstance(c.func, ast.Name) and c.func.id in trie_fns:
-                for a in c.args:
+                for a in list(c.args) + [k.value for k in c.keywords]:
                     base = a.value if isinstance(a, ast.Subscript) else a
-                    if _self_attr(base):
+                    if _self_attr(base) in state:
                         tries.add(_self_attr(base))
     if not tries:
         raise AnalysisError("no trie attribute of NamespaceManager discovered")
@@ -1071,8 +1075,10 @@ def rule_r_unbinding_rebuilds_trie(repo: Repo, rep: Report) -> None:
                                                                   for x in typed.callees(ns.name, c)):
                         looked.setdefault(t.id, set()).add(norm(c.args[0]))
         for c in own_nodes(m):
-            if not (isinstance(c, ast.Call) and isinstance(c.func, ast.Attribute) and isinstance(c.func.value, ast.Name) and c.func.value.id == "self"
-                    and c.func.attr in binders and c.args):
+            # a call that reaches Store.bind: through a method of the manager that does, or Store.bind itself (where the private wrapper is written out)
+            if not (isinstance(c, ast.Call) and c.args and (
+                    isinstance(c.func, ast.Attribute) and isinstance(c.func.value, ast.Name) and c.func.value.id == "self" and c.func.attr in binders
+                    or any(x.endswith(".bind") and typed.is_subclass(x.rsplit(".", 1)[0], "rdflib.store.Store") for x in typed.callees(ns.name, c)))):
                 continue
             p = norm(c.args[0])
             from vlib import h_c17 as H
@@ -1194,17 +1200,18 @@ def rule_s_pname_sanitised(repo: Repo, rep: Report) -> None:
                    "a local part ending with %r is still written as a prefixed name here (%s falls back to the IRI form): 'p:v1.' reads back as p:v1 followed by '.'" % (e, ref_q), node=fn)
 
 
+def _each_in_its_own_layer(repo: Repo, rep: Report, rules) -> None:
+    """one rule, one layer (DESIGN §14.2): a rule that loses its anchor on the tree or on one equivalent view does not take its
+    neighbours with it, and the per-rule merge over the views can take every rule from the view that shows it best"""
+    for f in rules:
+        _layer(rep, f, repo)
+
+
 def run(repo: Repo, rep: Report) -> None:  # noqa: F811
     _layer(rep, _run_base3, repo)
-    rule_k_prefix_identity(repo, rep)
-    rule_l_override_false(repo, rep)
-    rule_m_memo_validated(repo, rep)
-    rule_n_wrapper_shares_manager(repo, rep)
-    rule_o_shortcut(repo, rep)
-    rule_p_xml_names_declared(repo, rep)
-    rule_q_no_hardwired_prefix(repo, rep)
-    rule_r_unbinding_rebuilds_trie(repo, rep)
-    rule_s_pname_sanitised(repo, rep)
+    _each_in_its_own_layer(repo, rep, (
+        rule_k_prefix_identity, rule_l_override_false, rule_m_memo_validated, rule_n_wrapper_shares_manager, rule_o_shortcut,
+        rule_p_xml_names_declared, rule_q_no_hardwired_prefix, rule_r_unbinding_rebuilds_trie, rule_s_pname_sanitised))
 
 
 _run_base4 = run
@@ -1454,13 +1461,18 @@ def rule_w_trie_answer_bound(repo: Repo, rep: Report) -> None:
              "Every call of the trie look-up (get_longest_namespace) from the manager therefore gives a predicate that says whether a namespace is bound - a lambda / function "
              "whose body compares a Store.prefix() look-up with None - and the look-up answers a key only under a call of that predicate on the key, passing it on when it "
              "recurses. Otherwise bind('ex', 'http://e/'); a failed compute_qname_strict('http://e/a/1') leaves 'http://e/a/' in the trie; then curie('http://e/a/b', "
-             "generate=False) raises KeyError instead of 'ex:a/b', and URIRef('http://e/a/b').n3(nm) binds a new prefix ns1", floor=3)
+             "generate=False) raises KeyError instead of 'ex:a/b', and URIRef('http://e/a/b').n3(nm) binds a new prefix ns1. (Counted: one obligation per call of the "
+             "look-up from the manager and one per place where the look-up answers a key - at least one of each, or the rule has lost its anchor - and one per call of "
+             "itself, of which a look-up that walks the levels in a loop has none)", floor=2)
     ns = repo.mod("rdflib.namespace")
     typed = repo.typed
     methods = ns.methods("NamespaceManager")
-    LOOK = "get_longest_namespace"
-    lf = ns.func(LOOK)
-    rep.analysed("%s:%s" % (ns.rel, LOOK))
+    LOOK = "get_longest_namespace"  # a public name of rdflib.namespace; the function is taken where it lives now (it may be imported)
+    found = H.resolve_function(repo, ns, LOOK)
+    if found is None:
+        raise AnalysisError("anchor vanished: %s:%s not found (neither defined in nor imported into the module)" % (ns.rel, LOOK))
+    lmod, lf = found
+    rep.analysed("%s:%s" % (lmod.rel, lf.name))
     # the trie also holds namespaces that were only looked at: an insertion of (a part of) the split of a parameter
     looked = []
     for mn, m in methods.items():
@@ -1474,19 +1486,13 @@ def rule_w_trie_answer_bound(repo: Repo, rep: Report) -> None:
     if not looked:
         rep.ob(RID, ns, "NamespaceManager", "no namespace that was only looked at is put in the trie", True, "the trie holds bound namespaces only", node=ns.cls("NamespaceManager"))
         return
-    lparams = [a.arg for a in lf.args.args]
+    lparams = H.params_of(lf)
     nonec = truthy.none_constants(ns)
+    # the predicate parameter(s) of the look-up, by role: the parameters it calls
+    pred_params = [p for p in lparams if any(isinstance(c, ast.Call) and isinstance(c.func, ast.Name) and c.func.id == p for c in own_nodes(lf))]
 
-    def bound_predicate(e: ast.AST) -> bool:
-        body = None
-        if isinstance(e, ast.Lambda):
-            body = e.body
-        elif isinstance(e, ast.Name) and ns.has(e.id):
-            body = ns.func(e.id)
-        elif isinstance(e, ast.Attribute) and _self_attr(e) in methods:
-            body = methods[_self_attr(e)]
-        if body is None:
-            return False
+    def says_bound(body: ast.AST) -> bool:
+        """the callable's body compares a Store.prefix() look-up with None"""
         for c in ast.walk(body):
             if isinstance(c, ast.Compare) and len(c.ops) == 1 and isinstance(c.ops[0], (ast.Is, ast.IsNot)) and truthy._is_none(c.comparators[0], nonec):
                 for x in ast.walk(c.left):
@@ -1496,42 +1502,102 @@ def rule_w_trie_answer_bound(repo: Repo, rep: Report) -> None:
                         return True
         return False
 
+    def bound_predicate(e: ast.AST, m: ast.AST) -> bool:
+        """every callable the argument can evaluate to (a lambda, a function, a method of the manager, a local bound to one) is such a predicate"""
+        bodies = H.callable_bodies(repo, ns, methods, m, e)
+        return bool(bodies) and all(says_bound(b) for b in bodies)
+
+    n_sites = 0
     for mn, m in methods.items():
         for c in own_nodes(m):
             if not (isinstance(c, ast.Call) and isinstance(c.func, ast.Name) and c.func.id == LOOK):
                 continue
-            extra = list(c.args[2:]) + [k.value for k in c.keywords if k.arg in lparams[2:]]
-            ok = any(bound_predicate(e) for e in extra)
+            n_sites += 1
+            bound = H.bound_arguments(lf, c) or {}
+            ok = any(bound_predicate(e, m) for p, e in bound.items() if p in pred_params)
             rep.ob(RID, ns, "NamespaceManager." + mn, c, ok,
                    "only a namespace that has a prefix is taken from the trie" if ok else
                    "the longest namespace of the trie is taken whether it is bound or not (the trie also has every namespace %s was asked about): a namespace that was merely "
                    "looked at hides the bound shorter one - KeyError with generate=False, a new nsN prefix otherwise" % looked[0][0], node=c)
-    # the look-up honours the predicate
-    pred_params = lparams[2:]
-    loop_keys = {t.id for f in own_nodes(lf) if isinstance(f, ast.For) for t in ast.walk(f.target) if isinstance(t, ast.Name)}
-    key_returns = [r for r in own_nodes(lf) if isinstance(r, ast.Return) and isinstance(r.value, ast.Name) and r.value.id in loop_keys]
-    if not key_returns:
-        raise AnalysisError("%s: the return of a key of the trie was not recognised" % LOOK)
+    if n_sites == 0:
+        raise AnalysisError("NamespaceManager: no call of %s found (the trie is filled with looked-at namespaces, but how it is read was not recognised)" % LOOK)
+    # the look-up honours the predicate: whatever it answers besides None and the answer of a call of itself (a key of the trie, however the
+    # levels are walked - recursion, a loop that collects the chain of matching keys and tries them from the deepest ...) was accepted by the
+    # predicate: on every path to the return, after the last binding of the name answered, a branch is taken that `pred(name)` being true
+    # (or no predicate having been given) implies
+    g = CFG(lf)
 
-    def asks(cj: ast.AST, key: str) -> bool:
-        if isinstance(cj, ast.Call) and isinstance(cj.func, ast.Name) and cj.func.id in pred_params and len(cj.args) == 1 and norm(cj.args[0]) == key:
-            return True
-        if isinstance(cj, ast.BoolOp) and isinstance(cj.op, ast.Or):
-            rest = [v for v in cj.values if not asks(v, key)]
-            return len(rest) < len(cj.values) and all(
-                isinstance(v, ast.Compare) and len(v.ops) == 1 and isinstance(v.ops[0], ast.Is) and isinstance(v.left, ast.Name) and v.left.id in pred_params
-                and truthy._is_none(v.comparators[0], nonec) for v in rest)
-        return False
+    def is_self_call(e: ast.AST) -> bool:
+        return isinstance(e, ast.Call) and isinstance(e.func, ast.Name) and e.func.id in (LOOK, lf.name)
 
-    for r in key_returns:
-        ok = any(asks(cj, r.value.id) for iff in H.in_true_branch(ns, r, lf) for cj in H.conjuncts(iff.test))
-        rep.ob(RID, ns, LOOK, r, ok, "answered only if the predicate accepts the key" if ok else
+    def value_kinds(name: str) -> set[str]:
+        """what a local of the look-up can hold: 'none', 'sub' (the answer of a call of itself), 'key' (anything else)"""
+        kinds = set()
+        for t, v in H.assignments(lf):
+            if isinstance(t, ast.Name) and t.id == name:
+                kinds.add("none" if truthy._is_none(v, nonec) else "sub" if is_self_call(v) else "key")
+            elif name in H.target_names(t):
+                kinds.add("key")
+        for n in own_nodes(lf):
+            if isinstance(n, (ast.For, ast.AsyncFor)) and name in H.target_names(n.target):
+                kinds.add("key")
+            if isinstance(n, ast.withitem) and n.optional_vars is not None and name in H.target_names(n.optional_vars):
+                kinds.add("key")
+        if name in lparams:
+            kinds.add("key")
+        return kinds
+
+    def accepted_fact(key: str):
+        def atom(e: ast.AST):
+            if isinstance(e, ast.Call) and isinstance(e.func, ast.Name) and e.func.id in pred_params and len(e.args) == 1 and not e.keywords and norm(e.args[0]) == key:
+                return True
+            # no predicate given: every namespace is accepted (the manager gives one at each of its calls, see above)
+            if isinstance(e, ast.Compare) and len(e.ops) == 1 and isinstance(e.ops[0], (ast.Is, ast.IsNot)) and isinstance(e.left, ast.Name) \
+                    and e.left.id in pred_params and truthy._is_none(e.comparators[0], nonec):
+                return isinstance(e.ops[0], ast.Is)
+            return None
+        return atom
+
+    def accepted_at(name: str, at: int, depth: int) -> bool:
+        """at the CFG node `at`, the local `name` holds None, an answer of a call of itself, or a key the predicate has accepted: every binding of it is
+        one of the first two, a copy `name = k` made where k is such a value, or (a loop variable, an element taken from a container ...) followed, on
+        every path from it to `at`, by a branch that `pred(name)` being true implies"""
+        if depth > 3:
+            return False
+        direct: set[int] = set()
+        for nid in H.definition_nodes(g, name):
+            st = g.nodes[nid].ast
+            v = st.value if g.nodes[nid].kind == "stmt" and isinstance(st, (ast.Assign, ast.AnnAssign)) and all(isinstance(t, ast.Name) for t in (
+                st.targets if isinstance(st, ast.Assign) else [st.target])) else None
+            if v is not None and (truthy._is_none(v, nonec) or is_self_call(v)):
+                continue
+            if isinstance(v, ast.Name) and v.id != name and v.id not in pred_params:
+                if not accepted_at(v.id, nid, depth + 1):
+                    return False
+                continue
+            direct.add(nid)
+        if name in lparams:
+            direct.add(g.entry)
+        return not direct or H.fact_since_definition(g, at, name, accepted_fact(name), defs=direct)
+
+    n_answers = 0
+    for r in own_nodes(lf):
+        if not (isinstance(r, ast.Return) and r.value is not None) or truthy._is_none(r.value, nonec) or is_self_call(r.value):
+            continue
+        if isinstance(r.value, ast.Name) and "key" not in value_kinds(r.value.id):
+            continue  # None / what the call of itself answered: judged where that answer was made
+        n_answers += 1
+        ok = bool(pred_params) and isinstance(r.value, ast.Name) and accepted_at(r.value.id, g.node_of(r, lmod), 0)
+        # (an answer computed in a form that is not followed is not shown to have been accepted)
+        rep.ob(RID, lmod, lf.name, r, ok, "answered only if the predicate accepts the key" if ok else
                "a key of the trie is answered without asking the caller's predicate: an unbound namespace can be the answer", node=r)
+    if n_answers == 0:
+        raise AnalysisError("%s: the return of a key of the trie was not recognised" % LOOK)
     for c in own_nodes(lf):
-        if isinstance(c, ast.Call) and isinstance(c.func, ast.Name) and c.func.id == LOOK:
-            passed = [norm(a) for a in c.args[2:]] + [norm(k.value) for k in c.keywords]
-            ok = bool(pred_params) and any(p in passed for p in pred_params)
-            rep.ob(RID, ns, LOOK, c, ok, "the predicate is passed on" if ok else "the recursion into the sub-trie drops the predicate", node=c)
+        if is_self_call(c):
+            bound = H.bound_arguments(lf, c) or {}
+            ok = bool(pred_params) and any(isinstance(bound.get(p), ast.Name) and bound[p].id == p for p in pred_params)
+            rep.ob(RID, lmod, lf.name, c, ok, "the predicate is passed on" if ok else "the recursion into the sub-trie drops the predicate", node=c)
 
 
 def rule_x_from_n3_unescapes(repo: Repo, rep: Report) -> None:
@@ -1541,7 +1607,7 @@ def rule_x_from_n3_unescapes(repo: Repo, rep: Report) -> None:
     RID = "C17.x-from-n3-decodes-the-local-part-escapes"
     rep.rule(RID,
              "rdflib.util.from_n3 is the inverse of n3(): for every escape c -> \\c that a writer of prefixed names (rule t's functions) applies to the local part "
-             "(`.replace(c, '\\\\' + c)`), the branch of from_n3 that splits 'prefix:local' turns the escaped local part back before it is appended to the namespace: evaluated on "
+             "(`.replace(c, '\\\\' + c)`), the part of from_n3 that splits 'prefix:local' (an assignment from a string method of its parameter given ':' that yields ('ex', .., 'abc') for 'ex:abc' - split, partition, unpacked or indexed) turns the escaped local part back before it is appended to the namespace: evaluated on "
              "'f' + esc + 'x', the statements between the split and the return give 'f' + c + 'x' to the returned IRI. URIRef('http://example.org/f(x)').n3(nm) is 'ex:f\\(x\\)'; "
              "from_n3 of that returned <http://example.org/f\\(x\\)>", floor=2)
     pairs = set()
@@ -1561,10 +1627,19 @@ def rule_x_from_n3_unescapes(repo: Repo, rep: Report) -> None:
     fn = um.func("from_n3")
     rep.analysed("%s:from_n3" % um.rel)
     ps = set(H.params_of(fn))
-    splits = [a for a in own_nodes(fn) if isinstance(a, ast.Assign) and isinstance(a.targets[0], ast.Tuple) and len(a.targets[0].elts) == 2
-              and all(isinstance(x, ast.Name) for x in a.targets[0].elts) and isinstance(a.value, ast.Call) and isinstance(a.value.func, ast.Attribute)
-              and a.value.func.attr in ("split", "partition") and isinstance(a.value.func.value, ast.Name) and a.value.func.value.id in ps
-              and a.value.args and isinstance(a.value.args[0], ast.Constant) and a.value.args[0].value == ":"]
+    # the split of 'prefix:local', by what it computes: an assignment from a string method of a parameter, given ":", that for the text
+    # 'ex:abc' gives a sequence that begins with 'ex' and ends with 'abc' - s.split(":", 1), s.partition(":") ..., unpacked into two or
+    # three names or kept under one name and indexed
+    probe_txt = "%s:%s" % (_GOOD[0], _GOOD[2])
+    splits = []
+    for a in own_nodes(fn):
+        if not (isinstance(a, ast.Assign) and len(a.targets) == 1 and isinstance(a.value, ast.Call) and isinstance(a.value.func, ast.Attribute)
+                and isinstance(a.value.func.value, ast.Name) and a.value.func.value.id in ps and a.value.args
+                and isinstance(a.value.args[0], ast.Constant) and a.value.args[0].value == ":"):
+            continue
+        got = H.StrEval(repo, um, {a.value.func.value.id: probe_txt}).ev(a.value)
+        if isinstance(got, (tuple, list)) and len(got) >= 2 and got[0] == _GOOD[0] and got[-1] == _GOOD[2]:
+            splits.append(a)
     if not splits:
         raise AnalysisError("from_n3: the split of 'prefix:local' was not found")
     for sp in splits:
@@ -1577,7 +1652,8 @@ def rule_x_from_n3_unescapes(repo: Repo, rep: Report) -> None:
         if blk is None:
             raise AnalysisError("from_n3: block of the split not found")
         after = blk[[i for i, s in enumerate(blk) if s is sp][0] + 1:]
-        pn, ln = sp.targets[0].elts[0].id, sp.targets[0].elts[1].id  # type: ignore[attr-defined]
+        src = sp.value.func.value.id  # type: ignore[attr-defined]
+
         def run_block(ev, stmts):
             """the string values that go into the returned term, or None when no return is reached on a decided path"""
             for st in stmts:
@@ -1602,7 +1678,10 @@ def rule_x_from_n3_unescapes(repo: Repo, rep: Report) -> None:
             return None
 
         for c, esc in sorted(pairs):
-            ev = H.StrEval(repo, um, {pn: _GOOD[0], ln: "f" + esc + "x"})
+            ev = H.StrEval(repo, um, {src: "%s:f%sx" % (_GOOD[0], esc)})
+            # (the names the split is unpacked into get the pieces the split gives for this text)
+            H.bind_target(ev.env, sp.targets[0], ev.ev(sp.value))
+            del ev.env[src]  # what follows is judged on the pieces alone
             got = run_block(ev, after)
             if got is None:
                 raise AnalysisError("from_n3: no return follows the split of 'prefix:local'")
@@ -1863,13 +1942,9 @@ def rule_z_xml_namespace_not_declared(repo: Repo, rep: Report) -> None:
 
 def run(repo: Repo, rep: Report) -> None:  # noqa: F811
     _layer(rep, _run_base4, repo)
-    rule_t_pn_local(repo, rep)
-    rule_u_pn_prefix(repo, rep)
-    rule_v_jsonld_context_terms(repo, rep)
-    rule_w_trie_answer_bound(repo, rep)
-    rule_x_from_n3_unescapes(repo, rep)
-    rule_y_rdf_prefix_not_empty(repo, rep)
-    rule_z_xml_namespace_not_declared(repo, rep)
+    _each_in_its_own_layer(repo, rep, (
+        rule_t_pn_local, rule_u_pn_prefix, rule_v_jsonld_context_terms, rule_w_trie_answer_bound, rule_x_from_n3_unescapes,
+        rule_y_rdf_prefix_not_empty, rule_z_xml_namespace_not_declared))
 
 
 _run_before_borrow = run
